@@ -107,10 +107,44 @@ def run(work, props, tier, seed, timeout=3600):
         os.remove(out)
     cmd = [binp, '--props', ','.join(props), '--tier', tier, '--seed', str(seed), '--out', out]
     res['cmd'] = ' '.join(cmd)
+    if timeout == 3600:
+        timeout = 360 if tier == 'quick' else 2400      # the driver normally needs about 40 s (quick) / 5 min (thorough)
     try:
         p = subprocess.run(cmd, stdout=subprocess.PIPE, stderr=subprocess.PIPE, universal_newlines=True, timeout=timeout)
     except subprocess.TimeoutExpired:
-        res['reason'] = 'bounded driver timeout'
+        # a hang (C13: every search terminates; C10: construction does not hang): rerun with breadcrumbs, the cases still in
+        # progress at the timeout are the candidates; a candidate that does not finish on its own within 30 s is the failing input
+        crumbs = os.path.join(work, 'crumbs')
+        shutil.rmtree(crumbs, ignore_errors=True)
+        os.makedirs(crumbs)
+        env = dict(os.environ)
+        env['VERIF_BREADCRUMB'] = crumbs
+        try:
+            subprocess.run(cmd, stdout=subprocess.PIPE, stderr=subprocess.PIPE, universal_newlines=True, timeout=timeout, env=env)
+        except subprocess.TimeoutExpired:
+            pass
+        cands = []
+        for fn in sorted(os.listdir(crumbs)):
+            try:
+                with open(os.path.join(crumbs, fn)) as f:
+                    cands.append(json.load(f))
+            except (OSError, ValueError):
+                pass
+        for c in cands:
+            tmp = os.path.join(work, 'hang_candidate.json')
+            with open(tmp, 'w') as f:
+                json.dump(c, f)
+            try:
+                subprocess.call([binp, '--replay', tmp], stdout=subprocess.DEVNULL, stderr=subprocess.DEVNULL, timeout=30)
+            except subprocess.TimeoutExpired:
+                c['clause'] = 'terminates'
+                c['actual'] = 'construction or search did not return within 30 s on this input (driver timeout %d s) | %s' % (timeout, c.get('actual', ''))
+                res['failures'] = [c]
+                res['status'] = 'fail'
+                res['hang'] = True
+                res['wall_s'] = time.time() - t0
+                return res
+        res['reason'] = 'bounded driver timeout (%d s) and no single case reproduces a hang (%d candidates)' % (timeout, len(cands))
         return res
     try:
         with open(out) as f:
@@ -159,7 +193,11 @@ def replay(work, path):
     if not binp:
         print('cannot build bounded driver:', log)
         return 2
-    rc = subprocess.call([binp, '--replay', path])
+    try:
+        rc = subprocess.call([binp, '--replay', path], timeout=120)
+    except subprocess.TimeoutExpired:
+        print('REPLAY: the case does not return within 120 s (hang)')
+        return 1
     if rc < 0 or rc in (134, 139):
         print('replay: the process ABORTED (status %d) on this input -- the violation reproduces' % rc)
         return 1
